@@ -591,6 +591,13 @@ class Interp(object):
             self.run.errors.append({"call": "gen.throw", "exception": "exception swallowed by the with block", "where": "_action.py:__exit__"})
             raise Abort()
 
+    def op_hook(self, node, ctx, pending):
+        """Harness hook: run a case-supplied callback between two nodes."""
+        fn = self.opts.get("hooks", {}).get(node["name"])
+        if fn is not None:
+            self.stat("hook:" + node["name"])
+            fn(self.run, node)
+
     def op_reenter(self, node, ctx, pending):
         """Re-enter the context of an action already on the stack."""
         if not ctx.stack:
@@ -1146,7 +1153,7 @@ def program_features(program):
 TYPE_NAMES = ["app:a", "app:b", "app:c", "sys:x", "t", ""]
 
 
-def programs(max_nodes=12, faults=False, remote=True, kinds=None, msg_kinds=None, raises=True, preserve=True, max_depth=5, reenter=True):
+def programs(max_nodes=12, faults=False, remote=True, kinds=None, msg_kinds=None, raises=True, preserve=True, max_depth=5, reenter=True, names=None):
     """
     Strategy for programs.  Depth is drawn first so that deep nestings are
     as likely as shallow ones; `max_nodes` bounds the body sizes.
@@ -1159,7 +1166,7 @@ def programs(max_nodes=12, faults=False, remote=True, kinds=None, msg_kinds=None
         lambda kind, mtype, fields, typed: {"op": "msg", "kind": kind, "mtype": mtype, "fields": fields, "typed": typed},
         st.sampled_from(msg_kinds),
         st.sampled_from(TYPE_NAMES),
-        V.field_dicts(3),
+        V.field_dicts(3, names),
         sers,
     )
     tb = exc_idx.map(lambda i: {"op": "tb", "exc": i})
@@ -1184,8 +1191,8 @@ def programs(max_nodes=12, faults=False, remote=True, kinds=None, msg_kinds=None
             },
             st.sampled_from(kinds),
             st.sampled_from(TYPE_NAMES),
-            V.field_dicts(2),
-            V.field_dicts(2),
+            V.field_dicts(2, names),
+            V.field_dicts(2, names),
             body,
             sers,
             st.sampled_from([0, 0, 0, 1, 2]),
